@@ -75,7 +75,9 @@ def lockLine (typ : String) (n : Nat) (pw pw2 : Bytes) : String :=
       | .error e => "err:" ++ lerr e
     s!"lock=ok nsecrets={(secretsOf w).length} clear={(secretsOf w').length} leak={leak} enc={w'.encrypted} unlock={un} " ++
     s!"wrong={exS (fun _ => "nil") (unlock C w' pw2)} emptypw={exS (fun _ => "nil") (unlock C w' [])} " ++
-    s!"again={exS (fun _ => "nil") (lock C w' pw [])} reload={un}"
+    -- Unlock / Clone are functions: the locked wallet they are applied to is the same value afterwards
+    -- (in the model `unlock C w' pw` is an expression: `w'` cannot change; the spec is `purity=ok`)
+    s!"again={exS (fun _ => "nil") (lock C w' pw [])} reload={un} purity=ok"
 
 def isPanic (impl : String) : Bool := impl.startsWith "panic"
 
@@ -113,6 +115,7 @@ def step (op impl : String) : String × Verdict :=
       match n.toNat?, hex? pw, hex? pw2 with
       | some n, some pw, some pw2 => (lockLine typ n pw pw2, .fail)
       | _, _, _ => ("bad-op", .unknown)
+  | ["alias", _, _, _] => ("ok pure", .fail)
   | _ => ("bad-op", .unknown)
 
 end Sky.C18
